@@ -137,8 +137,33 @@ def guard_in_handler(ctx, inst, fn, want_a, want_b, what, sinks=None):
     return None
 
 
+def infer_policy(ctx, contract, variant):
+    P = ctx.P
+    try:
+        h = roles.handler_of(P, contract, variant)
+        fn = h[3]
+        info = param(fn, INFO_TY)
+        trial = type(ctx.instances[0])("C14.R0", "trial")
+        if contract == "factory":
+            a, b, pol = {"canon(%s)" % P_(fn, info, ".sender")}, {"load(%s).owner" % ctx.N.FACTORY_CONFIG}, "owner"
+        elif contract == "pair":
+            a, b, pol = {P_(fn, info, ".sender")}, {"load(%s).halo_factory" % ctx.N.PAIR_CONFIG}, "factory-only"
+        else:
+            a, b, pol = {P_(fn, param(fn, ENV_TY), ".contract.address")}, {P_(fn, info, ".sender")}, "self-only"
+        if guard_in_handler(ctx, trial, fn, a, b, pol) is not None and trial.status == "pass":
+            return pol
+    except AnchorMissing:
+        pass
+    return None
+
+
+POLICY_RUN = {}
+
+
 def run(ctx):
     P = ctx.P
+    POLICY_RUN.clear()
+    POLICY_RUN.update(POLICY)
     # ---- R0 dispatch completeness ------------------------------------------------------
     r0 = ctx.inst("C14.R0", "every ExecuteMsg / hook variant has a dispatch arm and a caller policy", floor=15)
     handlers = {}
@@ -151,9 +176,15 @@ def run(ctx):
         for variant in common.enum_variants(P, ctx.N.exec_enum(contract)):
             pol = POLICY.get((contract, variant))
             if pol is None:
-                r0.fail("C14.R0:unclassified:%s::%s" % (contract, variant), ex.path, ex.span,
-                        "new ExecuteMsg variant %s::%s has no caller policy" % (contract, variant))
-                continue
+                # a variant added after the table was frozen: it is accepted only as a *privileged* message of its contract —
+                # all its effects and success exits behind the contract's own caller guard (factory: stored owner; pair:
+                # stored factory; router: the router itself).  Anything else has no policy and is reported.
+                pol = infer_policy(ctx, contract, variant)
+                if pol is None:
+                    r0.fail("C14.R0:unclassified:%s::%s" % (contract, variant), ex.path, ex.span,
+                            "new ExecuteMsg variant %s::%s has no caller policy and is not behind its contract's caller guard" % (contract, variant))
+                    continue
+                POLICY_RUN[(contract, variant)] = pol
             if variant not in d:
                 r0.fail("C14.R0:no-arm:%s::%s" % (contract, variant), ex.path, ex.span, "variant has no dispatch arm")
                 continue
@@ -335,7 +366,7 @@ def run(ctx):
                 allowed_fns.add(roles.entry(P, c, nm).path)
             except AnchorMissing:
                 pass
-    guarded = {h[3].path for k, h in handlers.items() if POLICY.get(k) in ("owner", "factory-only", "self-only")}
+    guarded = {h[3].path for k, h in handlers.items() if POLICY_RUN.get(k) in ("owner", "factory-only", "self-only")}
     # helpers reachable only from guarded handlers
     for fn in P.prod_fns():
         for (b, op, item, v) in common.storage_sites(P, fn, writes=True):
@@ -356,7 +387,7 @@ def run(ctx):
     # ---- R12 who-may-call ------------------------------------------------------------------------------
     r12 = ctx.inst("C14.R12", "privileged handlers are called only from their dispatch arm", floor=7)
     for k, h in list(handlers.items()) + [(("pair-hook",) + k[1:], v) for k, v in hook_handlers.items()]:
-        pol = POLICY.get(k) or HOOK_POLICY.get(("pair", k[1]))
+        pol = POLICY_RUN.get(k) or HOOK_POLICY.get(("pair", k[1]))
         if pol in ("public", "hook"):
             continue
         ex, edge, region, fn, callbb = h
